@@ -12,6 +12,7 @@ Key == file.fmt \o ":" \o file.variant
 IsTargaPartial(ev) == file.fmt = "tga" /\ ~(ev.x = 0 /\ ev.y = 0 /\ ev.w = canon.w /\ ev.h = canon.h)
 IsBmpRlePartial(ev) == file.fmt = "bmp" /\ file.variant \in {"rle4", "rle8"} /\ ~(ev.x = 0 /\ ev.y = 0 /\ ev.w = canon.w /\ ev.h = canon.h)
 IsRle == (file.fmt = "bmp" /\ file.variant \in {"rle4", "rle8"}) \/ (file.fmt = "tga" /\ Len(file.variant) >= 3 /\ SubSeq(file.variant, 1, 3) = "rle")
+IsSeparatePlanes == file.fmt = "tif" /\ \E i \in 1..(Len(file.variant) - 14) : SubSeq(file.variant, i, i + 14) = "separate-planes"
 IsTiledTiff == file.fmt = "tif" /\ \E i \in 1..(Len(file.variant) - 3) : SubSeq(file.variant, i, i + 3) = "tile"
 
 SubVerdict(ev) ==
@@ -31,7 +32,7 @@ Verdict(ev) ==
                                 \cup (IF ev.outside = 0 THEN {} ELSE {V("P_WritesOnlyDestination", "None", Key, ev.outside)})
            [] ev.e = "Small" -> (IF ev.threw THEN {} ELSE {V("P_SmallDestinationRejected", "None", Key, "read_view into a smaller view returned normally")})
                                 \cup (IF ev.outside = 0 THEN {} ELSE {V("P_WritesOnlyDestination", "None", Key, ev.outside)})
-           [] ev.e = "Conv"  -> IF ev.pix = ev.expect THEN {} ELSE {V("P_ConvertIsColorConvert", IF IsTiledTiff THEN "tiled-tiff-read_and_convert" ELSE "None", Key \o ":" \o ev.type, "read_and_convert_image differs from color_convert of the native image")}
+           [] ev.e = "Conv"  -> IF ev.pix = ev.expect THEN {} ELSE {V("P_ConvertIsColorConvert", IF IsSeparatePlanes THEN "tiff-separate-planes-read_and_convert" ELSE IF IsTiledTiff THEN "tiled-tiff-read_and_convert" ELSE "None", Key \o ":" \o ev.type, "read_and_convert_image differs from color_convert of the native image")}
            [] ev.e = "Scan"  -> IF ~ev.threw /\ ev.w = canon.w /\ ev.h = canon.h /\ ev.pix = canon.pix THEN {}
                                 ELSE {V("P_ScanlineAgrees", IF ev.threw /\ IsTiledTiff THEN "tiled-tiff-scanline-unsupported" ELSE IF ev.threw /\ IsRle THEN "rle-scanline-unsupported" ELSE "None", Key, [threw |-> ev.threw])}
            \* a walk of the scanline iterator (dereference some positions twice, pass others without dereferencing): ScanIter.tla
